@@ -145,6 +145,15 @@ func NewCtx() *Ctx {
 	return c
 }
 
+// OutDir is where evidence and replay files go: /verif, unless VERIF_OUT redirects them (runs
+// against scratch copies of the repository must not overwrite the evidence of the real tree).
+func (c *Ctx) OutDir() string {
+	if d := os.Getenv("VERIF_OUT"); d != "" {
+		return d
+	}
+	return c.VerifDir
+}
+
 // TempDir makes a fresh directory under the scratch area.
 func (c *Ctx) TempDir(prefix string) string {
 	d, err := os.MkdirTemp(c.Scratch, prefix)
@@ -230,7 +239,7 @@ func (c *Ctx) Report(v Violation) {
 	if nViolation > 25 {
 		return // enough witnesses; the count is still kept
 	}
-	dir := filepath.Join(c.VerifDir, "replays")
+	dir := filepath.Join(c.OutDir(), "replays")
 	_ = os.MkdirAll(dir, 0o755)
 	name := fmt.Sprintf("%s-%s-%016x.json", v.Property, sanitize(v.Clause), Hash64(id))
 	path := filepath.Join(dir, name)
@@ -290,7 +299,7 @@ func (c *Ctx) WriteEvidence(level string, coverage map[string]any, assumptions [
 	if err != nil {
 		Fatal("evidence: %v", err)
 	}
-	dir := filepath.Join(c.VerifDir, "evidence")
+	dir := filepath.Join(c.OutDir(), "evidence")
 	_ = os.MkdirAll(dir, 0o755)
 	if err := os.WriteFile(filepath.Join(dir, c.Prop+".json"), append(b, '\n'), 0o644); err != nil {
 		Fatal("evidence: %v", err)
